@@ -56,6 +56,10 @@ static void *v_memset(void *p, int c, size_t n);
 #define realloc v_realloc
 #define reallocarray v_reallocarray
 #define memset v_memset		/* only realloc_items() zeroing the fresh lines array goes through this */
+#ifndef NO_TYPED_MEMMOVE
+static void *v_memmove(void *dst, const void *src, size_t n);
+#define memmove v_memmove	/* only ini_val_set() shifting the tail of the lines array goes through this */
+#endif
 #endif
 
 #include "utils/mem_utils.h"
@@ -107,6 +111,21 @@ static void *v_reallocarray(void *old, size_t n, size_t sz) {
 	v_last_lines = p;
 	return (p);
 }
+#ifndef NO_TYPED_MEMMOVE
+#undef memmove
+/* ini_val_set: memmove(&lines[off + 1], &lines[off], sizeof(ptr) * (count - off)).  CBMC's built-in memmove copies a
+ * symbolic number of BYTES; pointers that travel through it lose their points-to information, every later
+ * ini->lines[i]->field then reads an unconstrained "invalid object" and cbmc reports counterexamples that do not exist
+ * natively (the UNCONFIRMED replays of the set-then-get / set-then-gen shapes). Same semantics, element-wise: */
+static void *v_memmove(void *dst, const void *src, size_t n) {
+	ini_line_p *d = (ini_line_p *)dst;
+	ini_line_p *s = (ini_line_p *)src;
+	size_t cnt = n / sizeof(ini_line_p);
+	V_ASSERT((n % sizeof(ini_line_p)) == 0 && d == s + 1, "HARNESS memmove only shifts the tail of the lines array up by one slot");
+	for (size_t i = cnt; i > 0; i--) d[i - 1] = s[i - 1];	/* overlapping, dst above src: copy from the top */
+	return (dst);
+}
+#endif
 #undef memset
 static void *v_memset(void *p, int c, size_t n) {
 	/* realloc_items: memset(new_array + 0, 0, 64 * sizeof(ptr)) right after reallocarray */
@@ -260,6 +279,11 @@ void harness(void) {
 		}
 		V_ASSERT(off == TLEN, "HARNESS shape lengths add up");
 	}
+#ifdef STRUCT_SK	/* narrower, cheap variant of the 3,3 shape: "[x]" LF "y=z" with the structural bytes concrete and x, y, z
+			 * symbolic letters (the fully symbolic 3,3 shape is in the thorough tier) */
+	text[0] = '['; text[2] = ']'; text[5] = '=';
+	V_ASSUME(in_name_alpha(text[1]) && text[1] != ']' && in_name_alpha(text[4]) && text[4] != ']' && in_name_alpha(text[6]));
+#endif
 	uint8_t *qs = v_buf(IN.qs, QS), *qk = v_buf(IN.qk, QK);
 	for (size_t i = 0; i < QS; i++) V_ASSUME(in_name_alpha(qs[i]));
 	for (size_t i = 0; i < QK; i++) V_ASSUME(in_name_alpha(qk[i]) && qk[i] != ']');
